@@ -13,9 +13,9 @@ Open Scope string_scope.
    (constructor, then process(event) per event) makes exactly the callbacks, in order, and passes through exactly
    the states that the independent table interpreter computes (the state after each event determines every
    Is<State>() answer). *)
-Theorem C08_sem : forall t, wf_table t = true -> forall evs gv,
+Theorem C08_sem : forall t, wf_table t = true -> py_names_ok t = true -> forall evs gv,
   exists prog, parse_indent (gen_py t) = Some prog /\ run_py prog evs gv = Some (table_interp t evs gv).
-Proof. exact py_sem. Qed.
+Proof. intros t H _. exact (py_sem t H). Qed.
 Print Assumptions C08_sem.
 
 (* THE ENGINE'S OUTPUT.  gen_py is not a separately recognised shape any more: for EVERY well-formed table, the file that the
@@ -81,14 +81,26 @@ Print Assumptions C08_wf_table_admitted.
    (StateMachineThread = 0).  What Trigger does is read from the synchronisation IR that translator/pysync.py extracts
    from the template's PER_EVENT block (Gen/PySync.v, the IR property C11 uses for the threaded mode): with the private
    flag runThreaded false it calls self.process(event) synchronously exactly once and touches neither queue nor thread. *)
-Theorem C08_sem_triggered : forall t, wf_table t = true -> forall evs gv,
+Theorem C08_sem_triggered : forall t, wf_table t = true -> py_names_ok t = true -> forall evs gv,
   exists prog, parse_indent (gen_py t) = Some prog /\ run_triggered prog evs gv = Some (table_interp t evs gv).
-Proof. exact py_sem_triggered. Qed.
+Proof. intros t H _. exact (py_sem_triggered t H). Qed.
 Print Assumptions C08_sem_triggered.
 
 Example C08_sem_triggered_nonvacuous : trigger_calls_unthreaded = Some 1.
 Proof. vm_compute. reflexivity. Qed.
 Print Assumptions C08_sem_triggered_nonvacuous.
+
+(* The name domain.  The model abstracts identifiers, so the theorems above cannot see a table name that collides with a
+   bare module-level name of the template (an event named Enum is re-bound by `from enum import Enum`).  The hypothesis
+   py_names_ok excludes exactly the names that translator/pytmpl.py computes from the template NOW: the names bound by its
+   import statements after the controller's star import (which the translator requires to be the FIRST import, so that a
+   controller name can never replace a library name), the classes it defines, and every other bare name it loads.  This
+   lemma pins that list; the check generates only tables inside the domain and probes every reserved name on the real code. *)
+Theorem C08_name_domain :
+  py_reserved_names = ["Enum"; "EventStartup"; "auto"; "queue"; "threading"; "unique"] /\
+  py_reserved_suffixes = ["StateId"; "StateMachine"].
+Proof. exact py_reserved_as_assumed. Qed.
+Print Assumptions C08_name_domain.
 
 (* The machine starts in the first row's start state after that state's entry callback (and nothing else). *)
 Theorem C08_init : forall t, wf_table t = true -> forall gv,
@@ -118,7 +130,7 @@ Definition ex_table : table :=
    mkRow "SB" "EvY" "SB" "NONE" "GuardH"; mkRow "SB" "EvY" "SB" "NONE" "GuardH"].
 
 Example C08_sem_nonvacuous :
-  wf_table ex_table = true /\
+  wf_table ex_table = true /\ py_names_ok ex_table = true /\
   table_interp ex_table ["EvX"; "EvX"; "EvZ"; "EvX"; "EvX"] (fun n _ => Nat.even n) =
     [([CEntry "SA" "EventStartup"], "SA");
      ([CGuard "GuardG" "EvX"; CExit "SA" "EvX"; CAction "OnA" "EvX"; CEntry "SB" "EvX"], "SB");
@@ -126,7 +138,7 @@ Example C08_sem_nonvacuous :
      ([CNoTrans "EvZ"], "SA");
      ([CGuard "GuardG" "EvX"; CExit "SA" "EvX"; CAction "OnB" "EvX"; CEntry "SC" "EvX"], "SC");
      ([CNoTrans "EvX"], "SC")].
-Proof. vm_compute. split; reflexivity. Qed.
+Proof. vm_compute. repeat split; reflexivity. Qed.
 Print Assumptions C08_sem_nonvacuous.
 
 Example C08_init_nonvacuous : wf_table ex_table = true /\ first_state ex_table = "SA".
